@@ -43,6 +43,30 @@ def dispatchTunnel (s : State) (kind : Nat) : Option Nat := s.tun kind
 
 def run (ops : List Op) : State := ops.foldl register init
 
+/-! ### Concurrent registration
+`HandleChord` / `HandleTunnel` may be called from several goroutines (every virtual node of a process attaches to
+the one shared router).  Each table update is atomic: `sync.Map.Store` for the physical / tunnel tables and for the
+per-kind map, and `skipmap.LoadOrStoreLazy` for obtaining the per-kind map — it never replaces an existing
+per-kind map, so the map a goroutine stores into IS the kind's map that `acceptChord` later loads.  Hence a set of
+concurrent registrations takes effect as `register` applied in SOME order.  `key` names the table slot a
+registration writes; registrations with different keys commute. -/
+
+inductive Key where
+  | virt (kind id : Nat)
+  | phys (kind : Nat)
+  | tun (kind : Nat)
+deriving DecidableEq, Repr
+
+def Op.key : Op → Key
+  | .handleChord kind (some id) _ => .virt kind id
+  | .handleChord kind none _ => .phys kind
+  | .handleTunnel kind _ => .tun kind
+
+/-- pairwise distinct table slots (what the harness guarantees for a concurrent batch) -/
+def distinctKeys : List Op → Bool
+  | [] => true
+  | op :: rest => rest.all (fun o => o.key ≠ op.key) && distinctKeys rest
+
 /-! ### Statement-level oracle over the registration history (most recent registration wins) -/
 
 def lastVirt : List Op → Nat → Nat → Option Nat
